@@ -100,13 +100,42 @@ func (d DNF) String() string {
 
 const maxTerms = 4096
 
+// AtomInfo remembers where an atom came from, so that it can be expanded on demand.
+type AtomInfo struct {
+	V     ssa.Value                 // the (negation-stripped, ==-normalised) condition value
+	NilOf ssa.Value                 // when set: the atom states "NilOf == nil" (synthesised for tail calls)
+	Subst map[*ssa.Parameter]string // parameter substitution in force when it was rendered
+}
+
+var atomReg = map[string]AtomInfo{}
+
+// mkLit turns a condition value into a literal: `x != y` becomes the negation of the atom
+// `(x == y)`; the atom's origin is registered.
+func mkLit(v ssa.Value, pos bool) Lit {
+	atom := Sig(v)
+	if bo, isB := v.(*ssa.BinOp); isB && bo.Op == token.NEQ {
+		atom = "(" + Sig(bo.X) + " == " + Sig(bo.Y) + ")"
+		pos = !pos
+	}
+	if _, ok := atomReg[atom]; !ok {
+		atomReg[atom] = AtomInfo{V: v, Subst: sigSubst}
+	}
+	return Lit{Atom: atom, Pos: pos}
+}
+
 // PathConds computes for every block the condition (over branch atoms) under which control
 // reaches it from the function entry, ignoring back edges (so inside a loop body the
 // condition describes one iteration). ok=false if the DNF grew beyond the bound.
 func PathConds(fn *ssa.Function) (map[*ssa.BasicBlock]DNF, bool) {
+	c, _, ok := PathCondsE(fn)
+	return c, ok
+}
+
+// PathCondsE also returns the condition of every forward edge.
+func PathCondsE(fn *ssa.Function) (map[*ssa.BasicBlock]DNF, map[Edge]DNF, bool) {
 	conds := map[*ssa.BasicBlock]DNF{}
 	if len(fn.Blocks) == 0 {
-		return conds, true
+		return conds, nil, true
 	}
 	// reverse postorder over forward edges
 	var order []*ssa.BasicBlock
@@ -162,12 +191,7 @@ func PathConds(fn *ssa.Function) (map[*ssa.BasicBlock]DNF, bool) {
 				if eneg {
 					epos = !epos
 				}
-				atom := Sig(ev)
-				if bo, isB := ev.(*ssa.BinOp); isB && bo.Op == token.NEQ {
-					atom = "(" + Sig(bo.X) + " == " + Sig(bo.Y) + ")"
-					epos = !epos
-				}
-				d = d.or(ec.and(Lit{Atom: atom, Pos: epos}))
+				d = d.or(ec.and(mkLit(ev, epos)))
 			}
 			return simplify(andDNF(pc, d))
 		}
@@ -191,22 +215,11 @@ func PathConds(fn *ssa.Function) (map[*ssa.BasicBlock]DNF, bool) {
 				if eneg {
 					epos = !epos
 				}
-				atom := Sig(ev)
-				if bo, isB := ev.(*ssa.BinOp); isB && bo.Op == token.NEQ {
-					atom = "(" + Sig(bo.X) + " == " + Sig(bo.Y) + ")"
-					epos = !epos
-				}
-				d = d.or(ec.and(Lit{Atom: atom, Pos: epos}))
+				d = d.or(ec.and(mkLit(ev, epos)))
 			}
 			return simplify(d)
 		}
-		atom := Sig(v)
-		// normalise != to ==
-		if bo, isB := v.(*ssa.BinOp); isB && bo.Op == token.NEQ {
-			atom = "(" + Sig(bo.X) + " == " + Sig(bo.Y) + ")"
-			pos = !pos
-		}
-		return pc.and(Lit{Atom: atom, Pos: pos})
+		return pc.and(mkLit(v, pos))
 	}
 	for _, b := range order {
 		if b == fn.Blocks[0] {
@@ -224,12 +237,12 @@ func PathConds(fn *ssa.Function) (map[*ssa.BasicBlock]DNF, bool) {
 			edgeConds[Edge{p, b}] = edge
 			d = d.or(edge)
 			if len(d) > maxTerms {
-				return conds, false
+				return conds, edgeConds, false
 			}
 		}
 		conds[b] = simplify(d)
 	}
-	return conds, true
+	return conds, edgeConds, true
 }
 
 func lastIf(b *ssa.BasicBlock) (*ssa.If, bool) {
@@ -337,6 +350,7 @@ type Row struct {
 	Ret     *ssa.Return
 	Call    ssa.CallInstruction // for delegating returns
 	Via     *ssa.BasicBlock     // phi predecessor when the return merges several paths
+	Val     ssa.Value           // the returned value this row classifies
 }
 
 // Table is the decision table of a function.
@@ -349,7 +363,7 @@ type Table struct {
 // errIdx is the index of the result that decides accept/reject (error or bool); for
 // error results: nil => accept, provably non-nil => reject, a call result => call:<callee>.
 func ExtractTable(fn *ssa.Function, resIdx int) (*Table, error) {
-	conds, ok := PathConds(fn)
+	conds, edgeConds, ok := PathCondsE(fn)
 	if !ok {
 		return nil, fmt.Errorf("path condition of %s exceeds %d terms", FuncName(fn), maxTerms)
 	}
@@ -372,19 +386,17 @@ func ExtractTable(fn *ssa.Function, resIdx int) (*Table, error) {
 			pb := phi.Block()
 			for i, e := range phi.Edges {
 				p := pb.Preds[i]
-				pc := conds[p]
-				if iff, isIf := lastIf(p); isIf && p.Succs[0] != p.Succs[1] {
-					cv, neg := BoolCond(iff.Cond)
-					atom := Sig(cv)
-					pos := p.Succs[0] == pb
-					if neg {
-						pos = !pos
+				pc, have := edgeConds[Edge{p, pb}]
+				if !have {
+					pc = conds[p]
+					if iff, isIf := lastIf(p); isIf && p.Succs[0] != p.Succs[1] {
+						cv, neg := BoolCond(iff.Cond)
+						pos := p.Succs[0] == pb
+						if neg {
+							pos = !pos
+						}
+						pc = pc.and(mkLit(cv, pos))
 					}
-					if bo, isB := cv.(*ssa.BinOp); isB && bo.Op == token.NEQ {
-						atom = "(" + Sig(bo.X) + " == " + Sig(bo.Y) + ")"
-						pos = !pos
-					}
-					pc = pc.and(Lit{Atom: atom, Pos: pos})
 				}
 				classify(e, p, simplify(pc), r)
 			}
@@ -400,7 +412,7 @@ func ExtractTable(fn *ssa.Function, resIdx int) (*Table, error) {
 				v = o
 			}
 		}
-		row := Row{Cond: cond, Ret: r, Via: b}
+		row := Row{Cond: cond, Ret: r, Via: b, Val: v}
 		if !errLike {
 			row.Outcome = "value:" + Sig(v)
 			if c, _ := CallOf(Origin(v)); c != nil && isTailOf(r, c) && CalleeName(c) != "" && !strings.HasPrefix(CalleeName(c), "builtin.") {
@@ -589,5 +601,322 @@ func andDNF(a, b DNF) DNF {
 			}
 		}
 	}
+	return out
+}
+
+
+// ---- on-demand expansion of atoms that are calls to repository helpers ----
+
+// substFor renders the arguments of call (under the substitution `outer`) and binds them to
+// the callee's parameters.
+func substFor(call *ssa.Call, callee *ssa.Function, outer map[*ssa.Parameter]string) map[*ssa.Parameter]string {
+	sub := map[*ssa.Parameter]string{}
+	WithSubst(outer, func() {
+		for i, p := range callee.Params {
+			if i < len(call.Call.Args) {
+				sub[p] = Sig(call.Call.Args[i])
+			}
+		}
+	})
+	return sub
+}
+
+// valueLit: a literal stating that the boolean value v (in the current substitution) holds.
+func valueLit(v ssa.Value) Lit {
+	cv, neg := BoolCond(v)
+	return mkLit(cv, !neg)
+}
+
+// nilLit: a literal stating that v == nil, registered so that it can be expanded further.
+func nilLit(v ssa.Value) Lit {
+	atom := "(" + Sig(v) + " == nil)"
+	if _, ok := atomReg[atom]; !ok {
+		atomReg[atom] = AtomInfo{NilOf: v, Subst: sigSubst}
+	}
+	return Lit{Atom: atom, Pos: true}
+}
+
+// ExpandAtom: if the atom tests the result of a call to a repository function with a body
+// (a boolean result, or an error-like result compared with nil), it returns the conditions
+// - over the callee's own branch atoms, with the callee's parameters rendered as the call's
+// arguments - under which the atom is true and false. Loops inside the callee are described
+// by one iteration (path conditions ignore back edges), so both are over-approximations.
+func ExpandAtom(atom string) (whenTrue, whenFalse DNF, ok bool) {
+	info, known := atomReg[atom]
+	if !known {
+		return nil, nil, false
+	}
+	var call *ssa.Call
+	resIdx := 0
+	nilTest := false
+	eqNil := true // the atom is "x == nil" (true means nil)
+	v := info.V
+	if info.NilOf != nil {
+		v = info.NilOf
+		nilTest = true
+	} else if bo, isB := v.(*ssa.BinOp); isB && (bo.Op == token.EQL || bo.Op == token.NEQ) {
+		var other ssa.Value
+		switch {
+		case isNilConst(bo.Y):
+			other = bo.X
+		case isNilConst(bo.X):
+			other = bo.Y
+		default:
+			return nil, nil, false
+		}
+		v = other
+		nilTest = true
+		// atoms are normalised to ==, whatever the operator was
+	}
+	o := Origin(v)
+	c, idx := CallOf(o)
+	if c == nil {
+		return nil, nil, false
+	}
+	cc, isCall := c.(*ssa.Call)
+	if !isCall {
+		return nil, nil, false
+	}
+	call = cc
+	if idx > 0 {
+		resIdx = idx
+	}
+	callee := Followable(call, nil)
+	if callee == nil {
+		return nil, nil, false
+	}
+	res := callee.Signature.Results()
+	if resIdx >= res.Len() {
+		return nil, nil, false
+	}
+	if !nilTest {
+		b, isB := res.At(resIdx).Type().Underlying().(*types.Basic)
+		if !isB || b.Info()&types.IsBoolean == 0 {
+			return nil, nil, false
+		}
+	}
+	sub := substFor(call, callee, info.Subst)
+	okAll := true
+	WithSubst(sub, func() {
+		t, err := ExtractTable(callee, resIdx)
+		if err != nil {
+			okAll = false
+			return
+		}
+		for _, r := range t.Rows {
+			switch {
+			case nilTest && r.Outcome == "accept":
+				whenTrue = whenTrue.or(r.Cond)
+			case nilTest && r.Outcome == "reject":
+				whenFalse = whenFalse.or(r.Cond)
+			case nilTest:
+				// a delegated or undetermined value: nil-ness stays an atom
+				l := nilLit(r.Val)
+				whenTrue = whenTrue.or(r.Cond.and(l))
+				whenFalse = whenFalse.or(r.Cond.and(Lit{Atom: l.Atom, Pos: false}))
+			case r.Outcome == "value:true":
+				whenTrue = whenTrue.or(r.Cond)
+			case r.Outcome == "value:false":
+				whenFalse = whenFalse.or(r.Cond)
+			default:
+				l := valueLit(r.Val)
+				whenTrue = whenTrue.or(r.Cond.and(l))
+				whenFalse = whenFalse.or(r.Cond.and(Lit{Atom: l.Atom, Pos: !l.Pos}))
+			}
+		}
+	})
+	if !okAll {
+		return nil, nil, false
+	}
+	_ = eqNil
+	return simplify(whenTrue), simplify(whenFalse), true
+}
+
+// SubstituteAtom replaces every literal on `atom` in d by the given conditions.
+func SubstituteAtom(d DNF, atom string, whenTrue, whenFalse DNF) DNF {
+	var out DNF
+	for _, term := range d {
+		var rest Term
+		var lit *Lit
+		for i := range term {
+			if term[i].Atom == atom {
+				l := term[i]
+				lit = &l
+			} else {
+				rest = append(rest, term[i])
+			}
+		}
+		if lit == nil {
+			out = out.or(DNF{term})
+			continue
+		}
+		repl := whenFalse
+		if lit.Pos {
+			repl = whenTrue
+		}
+		out = out.or(andDNF(DNF{rest}, repl))
+	}
+	return simplify(out)
+}
+
+// ExpandUnknown rewrites the table so that atoms the rule does not know (known returns
+// false) are replaced by the conditions inside the helpers they call, repeatedly (helpers
+// calling helpers), as far as possible.
+func (t *Table) ExpandUnknown(known func(atom string) bool) {
+	for round := 0; round < 4; round++ {
+		changed := false
+		for _, a := range t.Atoms() {
+			if known(a) {
+				continue
+			}
+			wt, wf, ok := ExpandAtom(a)
+			if !ok {
+				continue
+			}
+			for i := range t.Rows {
+				t.Rows[i].Cond = SubstituteAtom(t.Rows[i].Cond, a, wt, wf)
+			}
+			changed = true
+		}
+		if !changed {
+			return
+		}
+	}
+}
+
+// ExpandDNF is ExpandUnknown for a single condition.
+func ExpandDNF(d DNF, known func(atom string) bool) DNF {
+	for round := 0; round < 4; round++ {
+		changed := false
+		seen := map[string]bool{}
+		for _, term := range d {
+			for _, l := range term {
+				seen[l.Atom] = true
+			}
+		}
+		for a := range seen {
+			if known(a) {
+				continue
+			}
+			wt, wf, ok := ExpandAtom(a)
+			if !ok {
+				continue
+			}
+			d = SubstituteAtom(d, a, wt, wf)
+			changed = true
+		}
+		if !changed {
+			break
+		}
+	}
+	return d
+}
+
+// ValueRows describes which alternative of the value v (used in block `at` of fn) is taken
+// under which path condition: phi alternatives are split per incoming edge. The rows'
+// Outcome is "value:<sig>" and Val is the alternative.
+func ValueRows(fn *ssa.Function, v ssa.Value, at *ssa.BasicBlock) ([]Row, error) {
+	conds, edgeConds, ok := PathCondsE(fn)
+	if !ok {
+		return nil, fmt.Errorf("path condition of %s exceeds %d terms", FuncName(fn), maxTerms)
+	}
+	var rows []Row
+	var walk func(v ssa.Value, b *ssa.BasicBlock, cond DNF, depth int)
+	walk = func(v ssa.Value, b *ssa.BasicBlock, cond DNF, depth int) {
+		if len(cond) == 0 {
+			return
+		}
+		if phi, isPhi := v.(*ssa.Phi); isPhi && depth < 6 {
+			pb := phi.Block()
+			for i, e := range phi.Edges {
+				p := pb.Preds[i]
+				if pb.Dominates(p) {
+					continue
+				}
+				pc, have := edgeConds[Edge{p, pb}]
+				if !have {
+					pc = conds[p]
+				}
+				walk(e, p, simplify(pc), depth+1)
+			}
+			return
+		}
+		rows = append(rows, Row{Cond: cond, Outcome: "value:" + Sig(v), Val: v, Via: b})
+	}
+	walk(v, at, conds[at], 0)
+	return rows, nil
+}
+
+// Subst returns the parameter substitution of a frame chain: each entered helper's parameters
+// rendered as the signatures of the arguments at its call site.
+func (fr *Frame) Subst() map[*ssa.Parameter]string {
+	if fr == nil {
+		return map[*ssa.Parameter]string{}
+	}
+	outer := fr.Parent.Subst()
+	sub := substFor(fr.Site, fr.Callee, outer)
+	for k, v := range outer {
+		if _, ok := sub[k]; !ok {
+			sub[k] = v
+		}
+	}
+	return sub
+}
+
+// CondAt: the condition, from the entry of the outermost function, under which control
+// reaches block b inside the (possibly entered) function of frame fr: the conjunction of the
+// path conditions of every call site on the frame chain and of b itself, with helper
+// parameters rendered as call-site arguments.
+func CondAt(fr *Frame, b *ssa.BasicBlock) (DNF, bool) {
+	var d DNF
+	ok := true
+	WithSubst(fr.Subst(), func() {
+		conds, fine := PathConds(b.Parent())
+		if !fine {
+			ok = false
+			return
+		}
+		d = conds[b]
+	})
+	if !ok {
+		return nil, false
+	}
+	if fr != nil {
+		outer, fine := CondAt(fr.Parent, fr.Site.Block())
+		if !fine {
+			return nil, false
+		}
+		d = simplify(andDNF(outer, d))
+	}
+	return d, true
+}
+
+// DeepInstr is an instruction of a function's region with the frame it was reached through.
+type DeepInstr struct {
+	Instr ssa.Instruction
+	Fr    *Frame
+}
+
+// DeepInstrs lists every instruction of fn, its closures and the unexported repository
+// helpers it calls (transitively, bounded), with frames. Closures share their parent's frame.
+func DeepInstrs(fn *ssa.Function, stop func(*ssa.Function) bool) []DeepInstr {
+	var out []DeepInstr
+	var visit func(f *ssa.Function, fr *Frame)
+	visit = func(f *ssa.Function, fr *Frame) {
+		for _, b := range f.Blocks {
+			for _, ins := range b.Instrs {
+				out = append(out, DeepInstr{ins, fr})
+				if cc, ok := ins.(*ssa.Call); ok {
+					if callee := Followable(cc, fr); callee != nil && !exportedFunc(callee) && (stop == nil || !stop(callee)) {
+						visit(callee, &Frame{Site: cc, Callee: callee, Parent: fr})
+					}
+				}
+			}
+		}
+		for _, a := range f.AnonFuncs {
+			visit(a, fr)
+		}
+	}
+	visit(fn, nil)
 	return out
 }
